@@ -5,6 +5,7 @@ package rpc
 // handshake, then one writer and one reader goroutine per direction under the token scheduler.
 
 import (
+	"strings"
 	"bytes"
 	"encoding/json"
 	"fmt"
@@ -24,6 +25,7 @@ type frPacket struct {
 	Len    int    `json:"n"`
 	Mode   int    `json:"m"`           // 0 WritePacket, 1 WritePacket2, 2 NoFlush (flushed later), 3 header/body.../trailer
 	Splits []int  `json:"s,omitempty"` // body split points for modes 1 and 3
+	PauseUs int   `json:"p,omitempty"` // ping mode: the writer flushes and stays silent for this long before the packet
 }
 
 type frScenario struct {
@@ -45,6 +47,13 @@ type frScenario struct {
 	TimeAdvPct int        `json:"time_adv_pct"`
 	CryptoSeed uint64     `json:"crypto_seed"`
 	ContentKey uint64     `json:"content_key"`
+	// ping mode: readers use a read timeout, so that a silent peer is pinged (the reader goroutine writes the ping,
+	// the peer's reader goroutine writes the pong, both concurrently with the writer goroutines of their ends)
+	PingMode      bool   `json:"ping_mode,omitempty"`
+	ReadTimeoutUs [2]int `json:"read_timeout_us,omitempty"`
+	Capacity      int    `json:"capacity,omitempty"`     // bytes a direction holds before the writer blocks (0: practically unlimited)
+	ReaderPauseAt [2]int `json:"reader_pause_at,omitempty"` // ping mode: reader d sleeps once, before reading packet number ReaderPauseAt[d]-1 (0: never)
+	ReaderPauseUs [2]int `json:"reader_pause_us,omitempty"`
 }
 
 const frKey = "verif-simulation-crypto-key-0123456789abcdef"
@@ -118,6 +127,45 @@ func frGen(r *rand.Rand, params map[string]any) frScenario {
 	sc.ContentKey = r.Uint64()
 	switch params["faults"] {
 	case "none":
+		if params["enumerate"] != true && r.IntN(4) == 0 {
+			// the clock moves only when every goroutine is blocked, so a pong is at most two latencies away and a
+			// second timeout before it (a legitimately dead peer) cannot happen
+			sc.PingMode, sc.TimeAdvPct = true, 0
+			// Timeouts are far above the connection's 100 ms deadline accuracy and above the time a whole stream
+			// needs through the smallest window; a reader sleeps at most once, for at most a quarter of the timeout
+			// of the reader that waits for its pongs: a ping is always answered in time by a live peer.
+			for d := 0; d < 2; d++ {
+				sc.ReadTimeoutUs[d] = 2_000_000 + r.IntN(4_000_000)
+			}
+			sc.Capacity = []int{0, 256, 1024, 4096}[r.IntN(4)]
+			if r.IntN(2) == 0 {
+				for d, ps := range [2][]frPacket{sc.AB, sc.BAp} {
+					for i := range ps {
+						if r.IntN(3) == 0 {
+							ps[i].PauseUs = sc.ReadTimeoutUs[d]/2 + r.IntN(3*sc.ReadTimeoutUs[d])
+						}
+					}
+					if r.IntN(2) == 0 {
+						sc.ReaderPauseAt[d] = 1 + r.IntN(len(ps))
+						sc.ReaderPauseUs[d] = 100_000 + r.IntN(sc.ReadTimeoutUs[1-d]/4-100_000)
+					}
+				}
+			} else {
+				// directed: end a's reader times out (b is silent) exactly while end a's writer is blocked in the
+				// middle of a large packet, because end b's reader sleeps and the window is full
+				sc.Capacity = []int{256, 1024}[r.IntN(2)]
+				sc.Bufs[1] = 1 + r.IntN(512)
+				t := sc.ReadTimeoutUs[1]
+				nap := 200_000 + r.IntN(t/4-200_000)
+				sc.BAp = []frPacket{{Type: r.Uint32(), Len: 4 * r.IntN(10), Mode: 0}, {Type: r.Uint32(), Len: 4 * r.IntN(100), Mode: r.IntN(4), PauseUs: 2*t + r.IntN(t)}}
+				big := frPacket{Type: r.Uint32(), Len: 4 * (500 + r.IntN(250)), Mode: r.IntN(4)}
+				if big.Mode == 1 || big.Mode == 3 {
+					big.Splits = []int{r.IntN(big.Len + 1)}
+				}
+				sc.AB = []frPacket{{Type: r.Uint32(), Len: 4 * r.IntN(10), Mode: 0}, {Type: r.Uint32(), Len: 4 * r.IntN(10), Mode: 0, PauseUs: t - r.IntN(nap)}, big}
+				sc.ReaderPauseAt[0], sc.ReaderPauseUs[0] = 3, nap
+			}
+		}
 	default:
 		if r.IntN(5) == 0 {
 			sc.Fault = "reset"
@@ -178,6 +226,9 @@ type frOutcome struct {
 	dirs  [2]frDirResult
 	hsErr [2]error
 	res   vrt.Result
+	hsElapsed time.Duration
+	pingMode  bool
+	pings     int64
 }
 
 func frFixType(t uint32) uint32 {
@@ -243,12 +294,19 @@ func frRun(t *testing.T, sc frScenario, tape *vrt.Tape, keepLog bool, fault stri
 	var out frOutcome
 	cryptotest.SetGlobalRandom(t, sc.CryptoSeed)
 	cfg := vrt.Config{Strategy: sc.Strategy, TimeAdvPct: sc.TimeAdvPct, PCTChanges: 2, PCTSpan: 400, MaxSteps: 400000, Horizon: time.Hour, KeepLog: keepLog}
+	hsOver := false
 	cfg.OnIdle = func(s *vrt.Sim) bool {
+		if fault == "" && hsOver {
+			// no fault, every goroutine blocked for ever: written bytes never reached a reader
+			s.Fail("C35/stuck", "fault-free framing run is stuck after the handshake:"+s.Describe())
+			return false
+		}
 		s.Fail("machinery", "framing run is stuck:"+s.Describe())
 		return false
 	}
+	out.pingMode = sc.PingMode
 	out.res = vrt.Run(t, cfg, tape, func(s *vrt.Sim) {
-		nw := vrt.NewNet(vrt.NetConfig{MinLatency: 10 * time.Microsecond, Jitter: time.Duration(sc.JitterUs) * time.Microsecond, MaxSegment: sc.MaxSegment, MaxRead: sc.MaxRead}, s.Tape.Next)
+		nw := vrt.NewNet(vrt.NetConfig{MinLatency: 10 * time.Microsecond, Jitter: time.Duration(sc.JitterUs) * time.Microsecond, MaxSegment: sc.MaxSegment, MaxRead: sc.MaxRead, Capacity: sc.Capacity}, s.Tape.Next)
 		var aAddr, bAddr net.Addr
 		var trusted [][]*net.IPNet
 		force := false
@@ -272,13 +330,20 @@ func frRun(t *testing.T, sc frScenario, tape *vrt.Tape, keepLog bool, fault stri
 		pa := NewPacketConn(ca, sc.Bufs[0], sc.Bufs[1])
 		pb := NewPacketConn(cb, sc.Bufs[2], sc.Bufs[3])
 		hsDone := make(chan struct{}, 2)
+		hsStart := s.Now()
 		vrt.Go("hs-client", func() {
 			out.hsErr[0] = pa.HandshakeClient(keyC, trusted, force, 1000, 0, 0, sc.Protocol)
+			if out.hsErr[0] != nil {
+				_ = pa.Close() // as every user of a failed handshake does; unblocks the peer
+			}
 			hsDone <- struct{}{}
 			vrt.Yield("hs-client-done")
 		})
 		vrt.Go("hs-server", func() {
 			_, _, out.hsErr[1] = pb.HandshakeServer(keysS, trusted, force, 2000, 0)
+			if out.hsErr[1] != nil {
+				_ = pb.Close()
+			}
 			hsDone <- struct{}{}
 			vrt.Yield("hs-server-done")
 		})
@@ -286,6 +351,8 @@ func frRun(t *testing.T, sc frScenario, tape *vrt.Tape, keepLog bool, fault stri
 		vrt.Yield("hs-wait")
 		<-hsDone
 		vrt.Yield("hs-wait")
+		out.hsElapsed = s.Now() - hsStart
+		hsOver = true
 		if out.hsErr[0] != nil || out.hsErr[1] != nil {
 			return
 		}
@@ -315,23 +382,48 @@ func frRun(t *testing.T, sc frScenario, tape *vrt.Tape, keepLog bool, fault stri
 			vrt.Go(fmt.Sprintf("writer%d", d), func() {
 				defer func() { fin <- struct{}{}; vrt.Yield("writer-done") }()
 				for i, p := range packets[d] {
+					if sc.PingMode && p.PauseUs > 0 {
+						// going idle: flush first (a peer that stalls in the middle of a packet is legitimately timed out)
+						if err := pcs[d].Flush(); err != nil {
+							out.dirs[d].writeErr = err
+							break
+						}
+						time.Sleep(time.Duration(p.PauseUs) * time.Microsecond)
+						vrt.Yield("writer-pause")
+					}
 					body := frBody(sc.ContentKey, d, i, p.Len)
 					out.dirs[d].written = append(out.dirs[d].written, frRead{frFixType(p.Type), body})
 					if err := frWrite(pcs[d], p, body); err != nil {
 						out.dirs[d].writeErr = err
 						out.dirs[d].written = out.dirs[d].written[:len(out.dirs[d].written)-1]
-						return
+						break
 					}
 				}
-				if err := pcs[d].ShutdownWrite(); err != nil {
+				if sc.PingMode {
+					// the write side stays open (pongs and pings still have to go out); the run is closed by the root
+					if err := pcs[d].Flush(); err != nil && out.dirs[d].writeErr == nil {
+						out.dirs[d].writeErr = err
+					}
+					return
+				}
+				// also after a write error: the peer's reader must come to an end
+				if err := pcs[d].ShutdownWrite(); err != nil && out.dirs[d].writeErr == nil {
 					out.dirs[d].writeErr = err
 				}
 			})
 			vrt.Go(fmt.Sprintf("reader%d", d), func() {
 				defer func() { fin <- struct{}{}; vrt.Yield("reader-done") }()
 				rd := pcs[1-d] // reads what direction d wrote
+				var timeout time.Duration
+				if sc.PingMode {
+					timeout = time.Duration(sc.ReadTimeoutUs[d]) * time.Microsecond
+				}
 				for {
-					tip, body, err := rd.ReadPacket(nil, 0)
+					if sc.PingMode && sc.ReaderPauseAt[d] == len(out.dirs[d].read)+1 {
+						time.Sleep(time.Duration(sc.ReaderPauseUs[d]) * time.Microsecond)
+						vrt.Yield("reader-pause")
+					}
+					tip, body, err := rd.ReadPacket(nil, timeout)
 					if err != nil {
 						out.dirs[d].readErr = err
 						return
@@ -339,6 +431,34 @@ func frRun(t *testing.T, sc frScenario, tape *vrt.Tape, keepLog bool, fault stri
 					out.dirs[d].read = append(out.dirs[d].read, frRead{tip, append([]byte{}, body...)})
 				}
 			})
+		}
+		if sc.PingMode {
+			for i := 0; i < 2; i++ { // both writers (readers cannot end before the close below, except by an error)
+				<-fin
+				vrt.Yield("main-wait")
+			}
+			complete := func() bool {
+				for d := 0; d < 2; d++ {
+					if out.dirs[d].readErr == nil && len(out.dirs[d].read) < len(out.dirs[d].written) {
+						return false
+					}
+				}
+				return true
+			}
+			for limit := s.Now() + time.Minute; !complete() && s.Now() < limit; {
+				time.Sleep(time.Millisecond)
+				vrt.Yield("main-wait-readers")
+			}
+			out.pings = pa.currentPingID + pb.currentPingID
+			out.dirs[0].total = ca.OutWritten()
+			out.dirs[1].total = cb.OutWritten()
+			_ = pa.Close()
+			_ = pb.Close()
+			for i := 0; i < 2; i++ {
+				<-fin
+				vrt.Yield("main-wait")
+			}
+			return
 		}
 		for i := 0; i < 4; i++ {
 			<-fin
@@ -355,10 +475,18 @@ func frRun(t *testing.T, sc frScenario, tape *vrt.Tape, keepLog bool, fault stri
 // frJudge applies the C35 oracle to one run. faultDir < 0: fault-free.
 func frJudge(o frOutcome, fault string, faultDir int) (class, msg string) {
 	if len(o.res.Violations) > 0 {
+		if c := o.res.Violations[0].Class; c == "panic" {
+			return "C35/panic", o.res.Violations[0].Msg // the connection code panicked while packets were in flight
+		}
 		return o.res.Violations[0].Class, o.res.Violations[0].Msg
 	}
 	if o.res.Outcome != "done" {
 		return "machinery", "run ended with outcome " + o.res.Outcome
+	}
+	if (o.hsErr[0] != nil || o.hsErr[1] != nil) && o.hsElapsed > cryptoMaxTimeDelta && strings.Contains(fmt.Sprint(o.hsErr[0], o.hsErr[1]), "time delta") {
+		// the documented clock check of the handshake: the processes were stalled for more than the accepted
+		// client-server time difference between writing and reading the nonce. An environment fault, not a defect.
+		return "skip", "handshake rejected for clock difference after a stall of " + o.hsElapsed.String()
 	}
 	if o.hsErr[0] != nil || o.hsErr[1] != nil {
 		return "C35/handshake-failed", fmt.Sprintf("fault-free handshake failed: client %v, server %v", o.hsErr[0], o.hsErr[1])
@@ -382,6 +510,13 @@ func frJudge(o frOutcome, fault string, faultDir int) (class, msg string) {
 			}
 			if r.writeErr != nil {
 				return "C35/write-error", fmt.Sprintf("direction %d: writer failed without a fault on its stream: %v", d, r.writeErr)
+			}
+			if o.pingMode {
+				// the run was ended by closing both connections once everything was read (or a minute had passed)
+				if len(r.read) != len(r.written) {
+					return "C35/lost-packet", fmt.Sprintf("direction %d (no fault, read timeouts with ping/pong): %d of %d packets read, reader ended with %v", d, len(r.read), len(r.written), r.readErr)
+				}
+				continue
 			}
 			if len(r.read) != len(r.written) || r.readErr != io.EOF {
 				return "C35/lost-packet", fmt.Sprintf("direction %d (no fault on this stream): %d of %d packets read, final error %v (want all, then io.EOF)", d, len(r.read), len(r.written), r.readErr)
@@ -407,8 +542,16 @@ func frExec(t *testing.T, sc frScenario, tape *vrt.Tape, keepLog bool) (out vrt.
 		out.Outcome = "violation"
 		return out
 	}
-	if class, msg := frJudge(base, "", -1); class != "" {
+	if class, msg := frJudge(base, "", -1); class == "skip" {
+		probes["probe.frame_handshake_rejected_clock_delta"]++
+		out.Sample = map[string]any{"skipped": msg}
+		return out
+	} else if class != "" {
 		return fail(class, "fault-free run: "+msg, base.res)
+	}
+	if sc.PingMode {
+		probes["probe.frame_ping_mode_runs"]++
+		probes["probe.frame_pings_sent"] += int(base.pings)
 	}
 	out.Progress = len(base.dirs[0].read)+len(base.dirs[1].read) > 0
 	out.Nontrivial = base.res.Stats["sched.contended_steps"] > 0
@@ -424,6 +567,9 @@ func frExec(t *testing.T, sc frScenario, tape *vrt.Tape, keepLog bool) (out vrt.
 	runFault := func(fault string, dir int, off int64, mask byte, log bool) (string, string, vrt.Result) {
 		o := frRun(t, sc, vrt.ReplayTape(sched), log, fault, dir, off, mask)
 		c, m := frJudge(o, fault, dir)
+		if c == "skip" {
+			c, m = "", ""
+		}
 		return c, m, o.res
 	}
 	d := sc.FaultDir
